@@ -54,7 +54,7 @@ Proof.
   pose proof (rsec_upd (s_threads s) i th th' Ei) as HU.
   destruct s as [fns wr rd ths rdn cs]. destruct th as [ops pc must called outs]. simpl in *.
   destruct pc as [|f|f|f seen|f| |todo| |n]; simpl in Est.
-  - destruct ops as [|[f| |] r]; try discriminate; inversion Est; subst; clear Est; simpl;
+  - destruct ops as [|[f| | |] r]; try discriminate; inversion Est; subst; clear Est; simpl;
       unfold inrsec in *; simpl in *; (split; [lia|exact HX]).
   - destruct (negb wr && (rd =? 0)) eqn:Eg; [|discriminate]. inversion Est; subst; clear Est.
     apply andb_true_iff in Eg. destruct Eg as [_ Eg]. apply Nat.eqb_eq in Eg. simpl.
@@ -104,7 +104,7 @@ Proof.
       destruct s as [fns wr rd ths rdn cs]. destruct th as [ops pc must called outs]. simpl in *. subst wr rd.
       unfold th_finished in Hf; simpl in Hf.
       destruct pc as [|f|f|f seen|f| |todo| |n]; simpl; try discriminate.
-      * destruct ops as [|[f| |] r]; try discriminate.
+      * destruct ops as [|[f| | |] r]; try discriminate.
       * destruct todo; discriminate.
     + (* read locks are held: a reader is inside Cancel or Len and can always move *)
       destruct (rsec_pos (s_threads s) ltac:(lia)) as [k [th2 [Hk Hin]]].
